@@ -540,7 +540,19 @@ func VH_ClientSetters() {
 		s.recvErrAt = vChoose("recvfailat", 2)
 		s.recvErrno = []syscall.Errno{syscall.ENOBUFS, syscall.EBADF, syscall.ECONNREFUSED}[vChoose("recverrno", 3)]
 	}
-	switch vChoose("setter", 8) {
+	switch vChoose("setter", 9) {
+	case 8:
+		// GetStatusAsync: AUDIT_GET, ACK requested only if asked for, the Send's sequence number returned
+		ack := vBool("requireack")
+		seq, err := c.GetStatusAsync(ack)
+		rq := s.last()
+		vAssert(rq != nil && err == nil, "C16/setter-sent-no-request")
+		if rq != nil {
+			vAssert(rq.typ == vUAPI_AUDIT_GET, "C16/get-request-type")
+			vAssert(rq.flags == uint16(vNLM_F_REQUEST|vIf(ack, vNLM_F_ACK, 0)), "C16/get-request-flags")
+			vAssert(len(rq.data) == 0, "C16/get-request-payload")
+			vAssert(seq == rq.seq, "C16/async-sequence-number")
+		}
 	case 0:
 		en := vBool("enabled")
 		c.SetEnabled(en, wm)
